@@ -186,6 +186,14 @@ def scenario(i, r):
     inner_b = fdl.Config(Layer, item=n1, act=n2)
     outer = fdl.Config(Model, enc=inner_a, dec=inner_b)
     return fdl.Config(Model, enc=outer, width=3), {'outer_fix': outer, 'a_fix': inner_a, 'b_fix': inner_b}
+  if i == 4:
+    # a node extracted into a variable named after its argument (`enc`: shared, or pulled out by the
+    # complexity threshold) while LEAF symbols of a module of the same name (an enum member, a plain
+    # function) occur elsewhere: the variable must not shadow the module
+    from harness.c12lib import enc as enc_mod
+    shared = fdl.Config(relu, x=r.randint(1, 9))
+    return fdl.Config(Model, enc=shared, dec=fdl.Config(Layer, item=shared, units=enc_mod.Kind.ADAM, act=enc_mod.rate),
+                      width=enc_mod.Kind.SGD), None
   # list / tuple subclasses and other values a generator must reject or reproduce exactly
   return fdl.Config(Model, name=Names((1, 2)), opts=[Names(('a',)), (1, 2)], width=r.randint(0, 3)), None
 
@@ -212,6 +220,10 @@ def cases(tier, r):
     yield 'scenario', {'scenario': i % 4, 'seed': r.getrandbits(48), 'generator': r.choice(['new', 'auto']),
                        'complexity': r.choice([None, 0, 2]), 'history': False, 'sub': 0, 'depth': 1,
                        'exotic': False, 'tags': False}
+  for gen in ('new', 'auto'):
+    for cx in (None, 0, 1):
+      yield 'scenario', {'scenario': 4, 'seed': 4, 'generator': gen, 'complexity': cx, 'history': False, 'sub': 0,
+                         'depth': 1, 'exotic': False, 'tags': False}
 
 
 def module_globals():
